@@ -1,0 +1,24 @@
+//go:build verif
+
+package nfs
+
+import (
+	"github.com/mit-pdos/go-nfsd/fstxn"
+)
+
+// VerifFsState exposes the server's file-system state to the
+// verification harness.
+func (nfs *Nfs) VerifFsState() *fstxn.FsState {
+	return nfs.fsstate
+}
+
+// VerifWaitShrinkers waits until no background shrinker is running.
+// It shuts nothing down.
+func (nfs *Nfs) VerifWaitShrinkers() {
+	nfs.shrinkst.VerifWait()
+}
+
+// VerifNumShrinkers reports how many background shrinkers are running.
+func (nfs *Nfs) VerifNumShrinkers() uint32 {
+	return nfs.shrinkst.VerifNThread()
+}
